@@ -152,3 +152,14 @@ chk("C14", "fault_enumeration", "property-based testing (Hypothesis): generated 
     "blocked. Search over faults, not proof.",
     "PKONE's mock rig does not boot on the pinned tree (baseline failure) so only its framing is covered; ASCII protocols have no integrity field; two FAST flow-control defects are listed as known findings.",
     "DESIGN.md §4 C14")
+chk("C15", "fault_enumeration", "property-based testing (Hypothesis): generated save/shutdown histories under an owned thread schedule with injected I/O errors and crash points; save -> reboot -> load round-trip",
+    "The real DataManager writer thread runs under a cooperative baton (sleep, dirty-flag wait, deepcopy, open, each file "
+    "write, close, os.replace are yield points) so the generator chooses the interleaving of save_all() calls, writer "
+    "steps and shutdown, plus one injected OSError or one simulated process death at a generated point of a save. "
+    "After a clean shutdown the file must parse to the last saved value; after a crash it must be absent or a complete "
+    "saved version, never torn; a save made after a failed write must reach the disk and the writer must not wedge. "
+    "Machine variables (generic and config-declared, YAML-lookalike strings, nested values, expiry on both sides of the "
+    "reboot) are written through the real YAML interface and reloaded into a machine booted later: equal values and "
+    "types, expired/non-persistent ones absent. Search over faults and schedules, not proof.",
+    "Crash = process death at call-level points (no fsync/power-loss model); pre-emption only at the listed yield points; pickle interface not covered.",
+    "DESIGN.md §4 C15, appendix A.3")
